@@ -10,8 +10,8 @@ SPEC = "Logs"
 MANIFEST = dict(
     text="Logs.tla models a forest of scopes each optionally given its own logger and/or trace id and a name from a "
          "family incl. the empty name and names containing %-formatting characters; loggers, trace ids and identifiers "
-         "are named by the scope that introduced them. Every context log call (4 levels x {no args, matching args, "
-         "literal % without args} x optional exception) and the scopes' own Started/finished lines are actions whose "
+         "are named by the scope that introduced them. Every context log call (4 levels x {no args, matching positional args, a single "
+         "mapping argument for %(name)s, literal % without args} x optional exception) and the scopes' own Started/finished lines are actions whose "
          "observation is the line that reached a handler. TLC checks LoggerRule, TraceInherited and LineSane over all "
          "trees/positions within the bounds, in the creating task and a spawned task; every edge is replayed into the "
          "real library with capturing handlers on the supplied loggers and on the root logger.",
@@ -137,7 +137,7 @@ class LogsDriver:
 
     def _text(self, t):
         return {"Started...": "started", "plain message": "noargs", "value x and 3": "args",
-                "100% sure": "pct_noargs"}.get(t, "finished" if t.startswith("...finished after") else "OTHER " + t[:60])
+                "100% sure": "pct_noargs", "user ann": "mapping"}.get(t, "finished" if t.startswith("...finished after") else "OTHER " + t[:60])
 
     def apply(self, name, args):
         w = self.w
@@ -167,7 +167,7 @@ class LogsDriver:
             t, lvl, text, exc = args
             fn = {"debug": ctx.log_debug, "info": ctx.log_info, "warning": ctx.log_warning, "error": ctx.log_error}[lvl]
             msg, margs = {"noargs": ("plain message", ()), "args": ("value %s and %d", ("x", 3)),
-                          "pct_noargs": ("100% sure", ())}[text]
+                          "pct_noargs": ("100% sure", ()), "mapping": ("user %(name)s", ({"name": "ann"},))}[text]
             raised = []
 
             def call():
